@@ -75,9 +75,6 @@ def parseVal (k : Kind) (s : String) : Option FieldVal :=
     else ((body.splitOn ",").mapM stringOfHex?).map .list
   | _, _ => none
 
-def setField (c : Config) (name : String) (v : FieldVal) : Config :=
-  c.map fun p => if p.1 == name then (name, v) else p
-
 def parseCfg (t : List FieldSpec) (s : String) : Option Config :=
   if s == "-" then some (zero t) else
   (s.splitOn ";").foldlM (fun c item =>
@@ -231,7 +228,7 @@ def step (s : Unit) (op : List String) (impl : String) : LineOut Unit :=
     match paths.mapM parsePath with
     | none => { state := s, model := some "bad-op" }
     | some ps =>
-      let m := match readPaths table ps with
+      let m := match readPathsS Gen.MergeConfig.readShape table ps with
         | none => "error"
         | some c => showCfg table c
       let mon : Option (String × String) :=
